@@ -193,21 +193,44 @@ contract("asn1:_pack_asn1",
          ensures=["tlv_of(result, tag_class, constructed, tag_number, data)"],
          raises={"ValueError": "tag_class < 0 or tag_class > 3"},
          bind_calls={"_pack_asn1_octet_number": "tagoct"},
-         loops={0: dict(invariant=["length >= 0",
-                                   "len(data) == length * pow256(len(length_octets)) + le(length_octets, len(length_octets))",
-                                   "pow256(len(length_octets)) >= 1",
+         loops={0: dict(ghost_init={"P": "1"}, ghost_update={"P": "256 * P"},
+                        invariant=["length >= 0", "P >= 1",
+                                   "P == pow256(len(length_octets))",
+                                   "len(data) == length * P + le(length_octets, len(length_octets))",
                                    "len(length_octets) <= 8",
                                    "length < pow256(8 - len(length_octets))",
                                    "implies(len(length_octets) >= 1, length * 256 + length_octets[len(length_octets) - 1] >= 1)",
                                    "implies(len(length_octets) == 0, length == len(data))"],
                         entry_hints=["pow256(8)", "pow256(7)", "pow256(4)", "pow256(0)"],
-                        snapshot_each={"prev_octets": "length_octets"},
-                        body_hints=["le(length_octets, len(length_octets))", "pow256(len(length_octets))",
+                        snapshot_each={"prev_octets": "length_octets", "prev_length": "length", "P0": "P"},
+                        body_hints=["len(length_octets) == len(prev_octets) + 1",
+                                    "length_octets[len(prev_octets)] == prev_length % 256",
+                                    "length == prev_length // 256",
+                                    "pow256(len(prev_octets) + 1) == 256 * pow256(len(prev_octets))",
                                     "pow256(8 - len(prev_octets))",
-                                    "lemma_le_frame(prev_octets, length_octets, len(length_octets) - 1)"],
+                                    "lemma_le_frame(prev_octets, length_octets, len(prev_octets))",
+                                    "le(length_octets, len(prev_octets) + 1) == le(prev_octets, len(prev_octets)) + (prev_length % 256) * P0",
+                                    "lemma_div_step(prev_length, 256, P0, le(prev_octets, len(prev_octets)))"],
                         exit_snapshot={"digits": "length_octets"},
                         decreases="length")},
-         exit_hints=["using tagoct: drop(result, 1) == cat(tagoct, drop(result, 1 + len(tagoct)))",
+         exit_hints=[
+                     # the result, part by part
+                     "unless tagoct, digits: result == cat(seq1(identifier_octets), seq1(len(data)), data)",
+                     "unless tagoct; using digits: result == cat(seq1(identifier_octets), seq1(128 + len(length_octets)), length_octets, data)",
+                     "using tagoct; unless digits: result == cat(seq1(identifier_octets), tagoct, seq1(len(data)), data)",
+                     "using tagoct, digits: result == cat(seq1(identifier_octets), tagoct, seq1(128 + len(length_octets)), length_octets, data)",
+                     # identifier octets: low / high tag number form, followed by short / long length form
+                     "unless tagoct, digits: lemma_id_low(identifier_octets, cat(seq1(len(data)), data))",
+                     "unless tagoct; using digits: lemma_id_low(identifier_octets, cat(seq1(128 + len(length_octets)), length_octets, data))",
+                     "using tagoct; unless digits: lemma_id_high(identifier_octets, tagoct, cat(seq1(len(data)), data))",
+                     "using tagoct, digits: lemma_id_high(identifier_octets, tagoct, cat(seq1(128 + len(length_octets)), length_octets, data))",
+                     "using digits: lemma_be_le_reverse(digits, length_octets, len(digits))",
+                     "using digits: pow256(0)", "using digits: le(digits, 0)",
+                     "unless tagoct, digits: lemma_len_short(seq1(identifier_octets), len(data), data)",
+                     "using tagoct; unless digits: lemma_len_short(cat(seq1(identifier_octets), tagoct), len(data), data)",
+                     "unless tagoct; using digits: lemma_len_long(seq1(identifier_octets), length_octets, data)",
+                     "using tagoct, digits: lemma_len_long(cat(seq1(identifier_octets), tagoct), length_octets, data)",
+                     "using tagoct: drop(result, 1) == cat(tagoct, drop(result, 1 + len(tagoct)))",
                      "using tagoct: lemma_b128end_find(tagoct, 0, len(tagoct) - 1)",
                      "using tagoct: lemma_b128end_prefix(tagoct, drop(result, 1 + len(tagoct)), 0)",
                      "using tagoct: lemma_b128_prefix(tagoct, drop(result, 1 + len(tagoct)), 0, len(tagoct))",
@@ -241,3 +264,90 @@ contract("asn1:_read_asn1_integer",
                         exit_hints=["comp[0] == 255 - vt[0][0]"]),
                 2: dict(invariant=["int_value == be(b_int, 0, _i2)", "int_value >= 0"],
                         body_hints=["be(b_int, 0, _i2)"])})
+
+# ------------------------------------------------------------------------------------------------ ASN1Reader methods
+# view' == old(view)[consumed:] on return, view' == old(view) on every exception ("a reader never consumes bytes beyond the
+# value it returns"; "reader advances only after a complete TLV was validated").
+_V = "old(self._view)"
+_RHDR_OK = "implies(header is not None, header.tag_length >= 0 and header.length >= 0 and header.tag_length <= len(self._view))"
+_RCONTENT = "(content_of(%s) if header is None else take(drop(%s, header.tag_length), header.length))" % (_V, _V)
+_RCONSUMED = "(hdr_len(%s) + val_len(%s) if header is None else header.tag_length + header.length)" % (_V, _V)
+_RRAISES = {"NotEnougData": "(header is None and not tlv_complete(self._view)) or (header is not None and len(self._view) < header.tag_length + header.length)",
+            "ValueError": True}
+
+
+def _rtagmatch(default_num, default_cons):
+    return ("implies(header is None, tlv_complete(%s) and (id_class(%s) == (tag.tag_class if tag is not None else 0)) and "
+            "(id_number(%s) == (tag.tag_number if tag is not None else %d)) and "
+            "(id_constructed(%s) == (tag.is_constructed if tag is not None else %s)))" % (_V, _V, _V, default_num, _V, default_cons))
+
+
+_RCOMMON = dict(params={"hint": "str"}, requires=[_RHDR_OK], raises=_RRAISES, on_raise=["self._view == old(self._view)"], modifies=["self._view"])
+_ADV = ["self._view == drop(%s, %s)" % (_V, _RCONSUMED), "%s <= len(%s)" % (_RCONSUMED, _V),
+        "implies(header is not None and tag is not None, header.tag == tag)"]
+
+contract("asn1:ASN1Reader.peek_header",
+         requires=[],
+         ensures=["hdr_complete(self._view)", "not indefinite(self._view)",
+                  "result.tag.tag_class == id_class(self._view)", "result.tag.is_constructed == id_constructed(self._view)",
+                  "result.tag.tag_number == id_number(self._view)", "result.tag_length == hdr_len(self._view)",
+                  "result.length == val_len(self._view)", "result.length >= 0", "result.tag_length >= 2",
+                  "result.tag_length <= len(self._view)", "result.tag.tag_number >= 0",
+                  "result.tag.tag_class >= 0", "result.tag.tag_class <= 3"],
+         raises={"NotEnougData": "not hdr_complete(self._view)", "ValueError": "id_complete(self._view)"},
+         modifies=[])
+contract("asn1:ASN1Reader.skip_value",
+         requires=["header.tag_length >= 0", "header.length >= 0"],
+         ensures=["self._view == drop(old(self._view), header.tag_length + header.length)"], raises={}, modifies=["self._view"])
+contract("asn1:ASN1Reader.get_remaining_data",
+         requires=[], ensures=["result == old(self._view)", "len(self._view) == 0"], raises={}, modifies=["self._view"])
+contract("asn1:ASN1Reader.read_octet_string", **_RCOMMON,
+         ensures=["result == " + _RCONTENT] + _ADV + [_rtagmatch(4, "False")])
+contract("asn1:ASN1Reader.read_boolean", **_RCOMMON,
+         ensures=["result == (not (len(%s) == 1 and %s[0] == 0))" % (_RCONTENT, _RCONTENT)] + _ADV + [_rtagmatch(1, "False")])
+contract("asn1:ASN1Reader.read_integer", **_RCOMMON,
+         ensures=["len(%s) >= 1" % _RCONTENT, "result == tc(%s)" % _RCONTENT] + _ADV + [_rtagmatch(2, "False")])
+contract("asn1:ASN1Reader.read_sequence", **_RCOMMON,
+         ensures=["result._view == " + _RCONTENT] + _ADV + [_rtagmatch(16, "True")])
+contract("asn1:ASN1Reader.read_set", **_RCOMMON,
+         ensures=["result._view == " + _RCONTENT] + _ADV + [_rtagmatch(17, "True")])
+contract("asn1:ASN1Reader.read_enumerated", inline=True)
+contract("asn1:_read_asn1_enumerated",
+         params={"data": "memoryview", "hint": "str"},
+         requires=[_HDR_OK],
+         ensures=["len(%s) >= 1" % _CONTENT, "result[0] == tc(%s)" % _CONTENT,
+                  "result[1] == " + _CONSUMED, "result[1] <= len(data)", "result[1] >= 0",
+                  _tagmatch(10, "False"),
+                  "implies(header is not None and tag is not None, header.tag == tag)"],
+         raises={"NotEnougData": "(header is None and not tlv_complete(data)) or (header is not None and len(data) < header.tag_length + header.length)",
+                 "ValueError": True})
+
+contract("specs.ber:lemma_div_step", requires=["b >= 1"],
+         ensures=["(v // b) * (b * p) + l + (v % b) * p == v * p + l"])
+
+_IDS = "cat(seq1(f), rest)"
+contract("specs.ber:lemma_id_low",
+         requires=["0 <= f", "f <= 255", "f % 32 < 31"],
+         ensures=["id_complete(%s)" % _IDS, "id_len(%s) == 1" % _IDS, "id_number(%s) == f %% 32" % _IDS, "id_class(%s) == f // 64" % _IDS,
+                  "id_constructed(%s) == ((f // 32) %% 2 == 1)" % _IDS, "id_minimal(%s)" % _IDS])
+_IDH = "cat(seq1(f), t, rest)"
+contract("specs.ber:lemma_id_high",
+         requires=["0 <= f", "f <= 255", "f % 32 == 31", "len(t) >= 1", "forall(q, 0, len(t) - 1, t[q] >= 128)", "t[len(t) - 1] < 128",
+                   "t[0] != 128", "b128(t, 0, len(t)) >= 31"],
+         ensures=["drop(%s, 1) == cat(t, rest)" % _IDH,
+                  "id_complete(%s)" % _IDH, "id_len(%s) == 1 + len(t)" % _IDH, "id_number(%s) == b128(t, 0, len(t))" % _IDH,
+                  "id_class(%s) == f // 64" % _IDH, "id_constructed(%s) == ((f // 32) %% 2 == 1)" % _IDH, "id_minimal(%s)" % _IDH])
+_LS = "cat(i, seq1(n), content)"
+contract("specs.ber:lemma_len_short",
+         requires=["id_complete(%s)" % _LS, "id_len(%s) == len(i)" % _LS, "0 <= n", "n < 128", "n == len(content)"],
+         ensures=["hdr_complete(%s)" % _LS, "not indefinite(%s)" % _LS, "val_len(%s) == n" % _LS, "hdr_len(%s) == len(i) + 1" % _LS,
+                  "tlv_complete(%s)" % _LS, "len(%s) == hdr_len(%s) + len(content)" % (_LS, _LS), "drop(%s, hdr_len(%s)) == content" % (_LS, _LS),
+                  "len_minimal(%s)" % _LS])
+_LL = "cat(i, seq1(128 + len(r)), r, content)"
+contract("specs.ber:lemma_len_long",
+         requires=["id_complete(%s)" % _LL, "id_len(%s) == len(i)" % _LL, "1 <= len(r)", "len(r) <= 126", "be(r, 0, len(r)) == len(content)",
+                   "len(content) >= 128", "r[0] != 0"],
+         ensures=["drop(%s, len(i) + 1) == cat(r, content)" % _LL,
+                  "hdr_complete(%s)" % _LL, "not indefinite(%s)" % _LL, "val_len(%s) == len(content)" % _LL, "hdr_len(%s) == len(i) + 1 + len(r)" % _LL,
+                  "tlv_complete(%s)" % _LL, "len(%s) == hdr_len(%s) + len(content)" % (_LL, _LL), "drop(%s, hdr_len(%s)) == content" % (_LL, _LL),
+                  "len_minimal(%s)" % _LL])
